@@ -2,4 +2,4 @@
 from .core import Abort, Unsupported, Budget, OutOfDomain, W, eng, proxy_rejected
 from .values import (SymInt, SymBool, SymBytes, AtomStr, Atom, And, Or, Not, Implies, Ite, term, lift, mk, mkb,
                      parse_template, describe_template, render_template, has_atoms, signed)
-from .maps import SymMap, SymTable, GuardedList
+from .maps import SymMap, SymTable, GuardedList, HavocMap
